@@ -564,28 +564,31 @@ PROPS["C08"] = dict(
 PROPS["C14"] = dict(
     corr_module="Corr.C14",
     streams={"hist": dict(runner="C14_run", in_t="C14_in", out_t="C14_out", shard=4, imports=["Model.Store", "Model.VecStore"])},
-    n_quick=30, n_thorough=600,
+    n_quick=26, n_thorough=600,
     harness_timeout=3000,
-    rule="histories of 6-34 ops on a real memory (default features, dimension 4): put_with_embedding / plain puts (binary, text), put_with_chunk_embeddings on documents split into 2-6 chunks with 0, 1, n-1, n, n+2 chunk embeddings and with / without a parent embedding, "
-         "chunk embeddings offered for an unsplit document, update_frame with / without payload and with / without explicit embedding (targets biased to embedded active frames, also inactive and missing ids), delete, enable_vec, commit, vacuum, "
-         "close+reopen, exit-without-commit+reopen, doctor with all 16 option sets; payloads of 47-52 KB cross the automatic checkpoint, 66-80 KB grow the log; repeated embeddings, -0.0 and 1e6-scale components; "
-         "after EVERY op: Stats.vec_enabled / has_vec_index / vector_count and the (frame, embedding bits) pairs reachable by search_vec(k = 10^6) + frame_embedding are compared with the model; at every commit point the property oracle compares "
-         "an independent reference map (id -> embedding bits, active flags) with the reachable set (symmetric difference), the bits, vector_count, search_vec at each frame's own embedding with k = index size (distance 0), frame_embedding of every other frame = None; "
-         "non-trivial = an embedded frame survived a commit and an embedded frame was updated or deleted; distinct by digest of the op list",
-    level_text="Unbounded theorem over the vector-index model on top of the frame-table model (Model/VecStore.v over Model/Store.v): for every history of embedded / chunk-embedded / plain puts, updates with or without explicit embedding, deletes, enable_vec, commits, "
-               "vacuum, reopen, crash+replay and doctor, and every timing of automatic checkpoints and log growth, outside the two known-finding classes, whenever nothing is pending the loaded index is exactly the list of (active frame, embedding given to it) in frame order "
-               "(given = put embedding, i-th chunk embedding, explicit update embedding, else the updated frame's), frame_embedding answers that embedding and nothing for other frames, and update_frame carries exactly the given embedding; the property as stated is refuted by "
-               "doctor{rebuild_vec_index} (index emptied) and by exit-without-commit before the vec manifest was ever written (replay drops the pending embeddings), both proved to be inside known_class with vm_compute witnesses. Default features have the single representation Uncompressed.",
-    level_note="Property as stated is REFUTED in two classes recorded as known findings (doctor-vec-rebuild, crash-before-vec-manifest); proved outside them. Trusted: Coq kernel + vm_compute; hand-written model of build_vec_artifact / apply_records' embedding path / rebuild_indexes / "
-               "enable_vec / update_frame's carried embedding / load_vec_index_from_manifest / vacuum / doctor's apply_pending_rebuilds / grow_wal_region's TOC rewrite (tied by per-op observations on real memories); the frame-table model and its side condition are C01's; "
-               "automatic-checkpoint timing, log growth and chunk counts are oracle inputs observed on the implementation and universally quantified in the theorem; search_vec's scan of the Uncompressed list is C13's. HNSW (features vec / hnsw_bench, >= 1000 vectors) and PQ segments "
+    rule="first a fixed corpus of 8 histories (the witnesses of the repaired findings F-C14-1 doctor{rebuild_vec_index} and F-C14-2 exit-before-the-vec-manifest-reached-the-file, their combinations with chunk embeddings, enable_vec, "
+         "carried updates, and empty vectors), then generated histories of 6-34 ops on a real memory (default features, dimension 4): put_with_embedding / plain puts (binary, text), put_with_chunk_embeddings on documents split into 2-6 chunks "
+         "with 0, 1, n-1, n, n+2 chunk embeddings and with / without a parent embedding, empty parent / chunk / update vectors, chunk embeddings offered for an unsplit document, update_frame with / without payload and with / without explicit embedding "
+         "(targets biased to embedded active frames, also inactive and missing ids), delete, enable_vec, commit, vacuum, close+reopen, exit-without-commit+reopen, doctor with all 16 option sets; payloads of 47-52 KB cross the automatic checkpoint, "
+         "66-80 KB grow the log; repeated embeddings, -0.0 and 1e6-scale components; after EVERY op: Stats.vec_enabled / has_vec_index / vector_count and the (frame, embedding bits) pairs reachable by search_vec(k = 10^6) + frame_embedding are "
+         "compared with the model; at every commit point the property oracle compares an independent reference map (id -> embedding bits, active flags; an empty vector = none) with the reachable set (symmetric difference), the bits, vector_count, "
+         "search_vec at each frame's own embedding with k = index size (distance 0), frame_embedding of every other frame = None; a loss right after doctor{rebuild_vec_index} / after a crash before the manifest reached the file is tagged "
+         "doctor-vec-rebuild / crash-before-vec-manifest (repaired findings: plain violations now); non-trivial = an embedded frame survived a commit and an embedded frame was updated or deleted; distinct by digest of the op list",
+    level_text="Unbounded theorem over the vector-index model on top of the frame-table model (Model/VecStore.v over Model/Store.v, following the repaired code 564c799 / 83a83e8 / 8099cac): for EVERY history of embedded / chunk-embedded / plain puts "
+               "(empty vectors included), updates with or without explicit embedding, deletes, enable_vec, commits, vacuum, reopen, crash+replay (also before the first commit) and doctor (all option sets, rebuild_vec_index included), and every timing "
+               "of automatic checkpoints and log growth, whenever nothing is pending the loaded index is exactly the list of (active frame, embedding given to it) in frame order (given = put embedding, i-th chunk embedding, explicit update embedding, "
+               "else the updated frame's; an empty vector is none), frame_embedding answers that embedding and nothing for other frames, and update_frame carries exactly the given embedding. No known class. Default features have the single "
+               "representation Uncompressed. The behaviour before the repairs is kept as *_unfixed lemmas (doctor emptied the index; a replay with vec disabled dropped the embeddings).",
+    level_note="Trusted: Coq kernel + vm_compute; hand-written model of build_vec_artifact / apply_records' embedding path / commit_from_records (incl. its enable_vec) / rebuild_indexes / enable_vec / put_internal's empty-vector filter / update_frame's "
+               "carried embedding / load_vec_index_from_manifest / vacuum / doctor's apply_pending_rebuilds / grow_wal_region's TOC rewrite (tied by per-op observations on real memories); the frame-table model and its side condition are C01's; "
+               "automatic-checkpoint timing, log growth and chunk counts are oracle inputs observed on the implementation and universally quantified in the theorem; search_vec's scan of the Uncompressed list is C13's. Boundary: the index on file "
+               "always decodes in the model; an index whose bytes no longer decode leaves vec_index = None and the next rebuild writes an empty index (file damage: C20/C21). HNSW (features vec / hnsw_bench, >= 1000 vectors) and PQ segments "
                "(parallel_segments) are outside the default configuration: described in Properties/C14.v, not modelled.",
     trusted_base=["oracle inputs of each op (automatic checkpoint happened, extra log records, number of chunks, log region grew) are read from the implementation through cfg(memvid_verif) hooks",
                   "embeddings are compared as f32 bit patterns; the index is observed through search_vec with k = 10^6 and frame_embedding"],
     assumptions=["default cargo features (lex, pdf_extract, simd): VecIndex::Uncompressed is the only representation of toc.indexes.vec",
-                 "every embedding has at least one component (emb_ok); an empty vector is accepted by put and, stored next to real ones, makes search_vec panic in l2_distance (observation, not part of this property's classes)",
-                 "no I/O errors; update/delete targets are Document frames (C01's side condition)",
-                 "known findings outside which the theorem holds: doctor with rebuild_vec_index; exit without commit while the vec manifest exists only in memory and a pending record carries an embedding"],
+                 "an empty vector is no embedding (564c799); an update with an explicit empty vector yields a frame without embedding (nothing is carried)",
+                 "no I/O errors, index bytes on file decode; update/delete targets are Document frames (C01's side condition vrun_ok)"],
     allowed_axioms=[],
 )
 
